@@ -47,10 +47,12 @@ def run_proc_group(task):
     acc = e1.Accum()
     t0 = time.monotonic()
     rng0 = random.Random(f"{seed}:{PROP}:proc:{group}")
-    cfgs = fleet.draw_configs(rng0, 4)
-    ws = [fleet.Worker(c["hashseed"], c["prelude"], f"x{group}.{i}")
+    cfgs = fleet.draw_configs(rng0, 4, optimize_all=(group % 3 == 1))
+    ws = [fleet.Worker.from_config(c, f"x{group}.{i}")
           for i, c in enumerate(cfgs)]
     acc.extra["process_actor_interpreters"] += len(ws)
+    if cfgs[0].get("optimize"):
+        acc.extra["process_actor_groups_running_python_-O"] += 1
     try:
         for i in range(nruns):
             rng = random.Random(f"{seed}:{PROP}:proc:{group}:{i}")
@@ -77,8 +79,7 @@ def run_proc_group(task):
                     # the interpreters may be out of step after a failed run
                     for w in ws:
                         w.kill()
-                    ws = [fleet.Worker(c["hashseed"], c["prelude"],
-                                       f"x{group}.{j}")
+                    ws = [fleet.Worker.from_config(c, f"x{group}.{j}")
                           for j, c in enumerate(cfgs)]
                     if len(acc.violations) >= 2:
                         break
@@ -97,7 +98,7 @@ def minimise_process(v, target, budget_s=120.0):
     t0 = time.monotonic()
 
     def fresh():
-        return [fleet.Worker(c["hashseed"], c["prelude"], f"m{i}")
+        return [fleet.Worker.from_config(c, f"m{i}")
                 for i, c in enumerate(cfgs)]
 
     def fails(cand, dec_hint):
@@ -144,7 +145,7 @@ def minimise_process(v, target, budget_s=120.0):
 def replay_process(doc):
     from simkit import fleet
     case = e1.case_from_doc(doc)
-    ws = [fleet.Worker(c["hashseed"], c["prelude"], f"rp{i}")
+    ws = [fleet.Worker.from_config(c, f"rp{i}")
           for i, c in enumerate(doc["configs"])]
     try:
         res, _t = _proc_run(ws, case, doc["schedule"])
